@@ -18,7 +18,7 @@ struct Block {
 
 struct Registry {
     Block *tab = nullptr;
-    size_t cap = 0, used = 0, live = 0, live_lib = 0;
+    size_t cap = 0, used = 0, live = 0, live_lib = 0, live_lib_arrays = 0;
     uint32_t serial = 0;
     // library-scope accounting
     int lib_depth = 0;
@@ -128,7 +128,7 @@ inline void *do_new(size_t size, bool is_array)
     r.tab[s].in_lib = lib;
     r.tab[s].state = 1;
     ++r.live;
-    if (lib) ++r.live_lib;
+    if (lib) { ++r.live_lib; if (is_array) ++r.live_lib_arrays; }
     return p;
 }
 
@@ -148,7 +148,7 @@ inline void do_delete(void *p, bool is_array) noexcept
         ++r.mismatches;
         cur_printf("REGISTRY new/delete form mismatch on %p\n", p);
     }
-    if (b->in_lib) --r.live_lib;
+    if (b->in_lib) { --r.live_lib; if (b->is_array) --r.live_lib_arrays; }
     --r.live;
     b->state = 2;
     free(p);
